@@ -32,6 +32,7 @@ func init() {
 func rulesC13(c *Ctx) {
 	rulePutFresh(c, "C13.PUTFRESH")
 	ruleWithDefault(c, "C13.DEFAULT")
+	ruleEmptyContainerWritten(c, "C13.EMPTYCONTAINER")
 	// an encoded key handed out is the caller's own memory: nothing taken from a pool and given back escapes
 	c.As("C18.POOL", "C13.POOL", func() { ruleC18Pool(c) })
 	// a container written twice in one transaction is replaced, not merged: "is it empty" is not asked of bbolt's
